@@ -22,7 +22,7 @@ from fractions import Fraction
 import numpy as np
 
 PROP = 'C06'
-TARGETS = ['T6a', 'T6b', 'T6c', 'T6d', 'T6e', 'T6f', 'T6g']
+TARGETS = ['T6a', 'T6b', 'T6c', 'T6d', 'T6e', 'T6f', 'T6g', 'T6h']
 LEAN_MODULES = ['HdVerif.Props.C06']
 MODEL_MODULES = ['HdVerif.Model.PixelPipeline', 'HdVerif.Generated.T6g']
 NAMESPACE = 'HdVerif.C06'
